@@ -241,6 +241,20 @@ def check(spec):
             _set_globals(op[1])
             ds = build_stack(w)
             flags.add("rebuild")
+        elif k == "clone":
+            # what spawn-started workers, checkpointing code or a second loader do: the dataset travels through pickle / deepcopy
+            # and the copy is used from then on - sample i stays the same function of (data, config, seed, i)
+            import copy
+            import pickle
+            held = _CALLER_CONFIGS.get(id(ds))
+            try:
+                new = copy.deepcopy(ds) if op[1] % 2 else pickle.loads(pickle.dumps(ds))
+            except (pickle.PicklingError, AttributeError, TypeError) as e:
+                raise Refused(f"dataset cannot be copied: {type(e).__name__}")
+            if held is not None:
+                _CALLER_CONFIGS[id(new)] = (weakref.ref(new), held[1])
+            ds = new
+            flags.add("clone")
         elif k == "loader":
             nw, bs, okey = op[1], op[2], op[3]
             order = [int(j) for j in np.random.default_rng([okey, 3]).permutation(n)]
@@ -362,12 +376,12 @@ def wrapper_spec(draw, tier):
 
 @st.composite
 def op(draw, tier, tensor_out):
-    k = draw(st.sampled_from(["get", "get", "get", "get", "many", "perturb", "rebuild", "reuse"] + (["loader"] if tensor_out else [])))
+    k = draw(st.sampled_from(["get", "get", "get", "get", "many", "perturb", "rebuild", "reuse", "clone"] + (["loader"] if tensor_out else [])))
     if k == "get":
         return ["get", draw(st.integers(0, 20)), draw(st.sampled_from(["it", "it", "class", "xc", "cx", "seg", "xs", "sx"]))]
     if k == "many":
         return ["many", draw(st.lists(st.integers(0, 20), min_size=1, max_size=4))]
-    if k in ("perturb", "rebuild", "reuse"):
+    if k in ("perturb", "rebuild", "reuse", "clone"):
         return [k, draw(st.integers(0, 2 ** 20))]
     nw = draw(st.sampled_from([0, 0, 2, 3])) if tier == "thorough" else draw(st.sampled_from([0, 0, 0, 2]))
     return ["loader", nw, draw(st.integers(1, 4)), draw(st.integers(0, 99))]
